@@ -883,7 +883,15 @@ def b_print(eng, args, kw):
 
 
 def b_reversed(eng, args, kw):
-    return list(reversed(eng.iter_concrete(args[0])))
+    it = args[0]
+    if isinstance(it, (SObj, OptObj)):
+        it = eng.iterable(it)
+    items = eng.concrete_items(it)
+    if items is not None:
+        return list(reversed(items))
+    seq = eng.as_seq(it)
+    n = seq.length
+    return SSeq(n, lambda i, seq=seq, n=n: seq.at(r_sub(r_sub(n, 1), i)), 'reversed(%s)' % seq.label)
 
 
 def b_any(eng, args, kw):
